@@ -125,7 +125,7 @@ func (c12) Case(c *core.Ctx) {
 		case 6:
 			// new paths are split at '.' exactly as ValuesForPath reads them: blanks are part of a key, an empty segment
 			// is the key "" (only one trailing dot is dropped)
-			newp = [][]string{{"n0 ", fmt.Sprintf("s%d", j)}, {fmt.Sprintf(" n%d", j)}, {"e", "", fmt.Sprintf("s%d", j)}, {"", fmt.Sprintf("lead%d", j)}, {fmt.Sprintf("t%d", j), ""}, {fmt.Sprintf("n%d\u00a0", j)}}[r.Intn(6)]
+			newp = [][]string{{"n0 ", fmt.Sprintf("s%d", j)}, {fmt.Sprintf(" n%d", j)}, {"e", "", fmt.Sprintf("s%d", j)}, {"", fmt.Sprintf("lead%d", j)}, {fmt.Sprintf("t%d", j), ""}, {fmt.Sprintf("n%d\u00a0", j)}, {""}}[r.Intn(7)]
 			c.Count("newpath:blank-edge-or-empty-segment")
 		case 0:
 			newp = []string{"n0", fmt.Sprintf("sub%d", j)}
